@@ -229,7 +229,15 @@ class AsyncSut:
                  'query_string': query.encode('utf-8') if isinstance(query, str) else query, 'headers': hdrs,
                  'scheme': scheme}
         if ws is None:
-            inbox = [{'type': 'http.request', 'body': body, 'more_body': False}]
+            # ASGI servers deliver a request body in one or several http.request events (more_body=True on all but the
+            # last); ``self.body_chunks`` (1 by default) is how many events a non-empty body is cut into
+            n = max(1, min(int(getattr(self, 'body_chunks', 1)), len(body) or 1))
+            if n == 1:
+                inbox = [{'type': 'http.request', 'body': body, 'more_body': False}]
+            else:
+                step = (len(body) + n - 1) // n
+                parts = [body[i:i + step] for i in range(0, len(body), step)]
+                inbox = [{'type': 'http.request', 'body': p_, 'more_body': i < len(parts) - 1} for i, p_ in enumerate(parts)]
             if client_gone:
                 inbox.append({'type': 'http.disconnect'})
             r.inbox = inbox
